@@ -37,6 +37,8 @@
 #include <stdio.h>
 #include <stdint.h>
 #include <alloca.h>
+#include <sys/stat.h>
+#include <sys/types.h>
 #include "opus.h"
 #include "opus_multistream.h"
 #include "opus_projection.h"
@@ -69,8 +71,31 @@
 #if C12_MSAN
 # include <sanitizer/msan_interface.h>
 # define C12_UNINIT(p,n) __msan_poison(p,n)      /* pattern stays, but MSan treats the bytes as uninitialised */
+# define C12_DEFINED(p,n) __msan_unpoison(p,n)   /* data written by the uninstrumented frozen reference codec */
 #else
 # define C12_UNINIT(p,n) ((void)0)
+# define C12_DEFINED(p,n) ((void)0)
+#endif
+
+#if C12_MSAN
+/* The library variant is compiled with -D_FORTIFY_SOURCE=2, so some of its memset/memcpy calls go to glibc's uninstrumented
+ * __mem*_chk entry points, which MemorySanitizer does not intercept (their writes would leave the shadow "uninitialised": false
+ * reports).  Link-time interposition: route them to the intercepted functions. */
+void *__memset_chk(void *d,int c,size_t n,size_t dn){ (void)dn; return memset(d,c,n); }
+void *__memcpy_chk(void *d,const void *s,size_t n,size_t dn){ (void)dn; return memcpy(d,s,n); }
+void *__memmove_chk(void *d,const void *s,size_t n,size_t dn){ (void)dn; return memmove(d,s,n); }
+#endif
+/* State images may legitimately contain bytes MSan regards as uninitialised (dead stack garbage stored by the library, heap
+ * poison never overwritten by init).  The harness's own comparisons / hashes of images must not trip on them, while the shadow
+ * must stay attached to the images so that a later READ by the library is still reported: compare unpoisoned scratch copies. */
+#if C12_MSAN
+static unsigned char *g_sc1,*g_sc2; static size_t g_scn;
+static void sc_need(size_t n){ if(n>g_scn){ g_sc1=realloc(g_sc1,n); g_sc2=realloc(g_sc2,n); g_scn=n; } }
+static int img_cmp(const void *a,const void *b,size_t n){ sc_need(n); memcpy(g_sc1,a,n); memcpy(g_sc2,b,n); __msan_unpoison(g_sc1,n); __msan_unpoison(g_sc2,n); return memcmp(g_sc1,g_sc2,n); }
+static uint64_t img_hash(const void *a,size_t n,uint64_t seed){ sc_need(n); memcpy(g_sc1,a,n); __msan_unpoison(g_sc1,n); return mc_hash(g_sc1,n,seed); }
+#else
+# define img_cmp(a,b,n) memcmp(a,b,n)
+# define img_hash(a,n,seed) mc_hash(a,n,seed)
 #endif
 
 #ifndef OPUS_SET_FORCE_MODE_REQUEST
@@ -97,7 +122,8 @@ typedef struct kind {
    void (*getters)(void *obj,int b,obs_t *o);                 /* fills gret/gval */
    const char *const *gname; int ng;
    /* optional white-box *naming* of a reset failure (never part of the oracle): returns a cause token or NULL */
-   const char *(*classify)(int b,const unsigned char *rimg,const unsigned char *fimg,const int *path,int np,const obs_t *fobs);
+   const char *(*classify)(int b,const unsigned char *rimg,const unsigned char *fimg,const int *path,int np,const obs_t *fobs,uint64_t stale);
+   int core_getter;                  /* index of FINAL_RANGE in the getter vector (part of the core observation), or -1 */
 } kind_t;
 
 static kind_t *K;
@@ -106,7 +132,7 @@ static int D=4;                       /* total history depth bound */
 static int g_bsel[16], g_nbsel;       /* selected bases */
 
 static mc_set *g_visited,*g_distinct,*g_obsset;
-static mc_ctr *c_states,*c_trans,*c_eval,*c_dn,*c_exec,*c_clone,*c_reset,*c_twin,*c_twin_bytes_differ,*c_garbage,*c_garbage_twin,*c_reset_unclassified,*c_fresh,*c_selfloop,*c_prefix[MAXD+1];
+static mc_ctr *c_states,*c_trans,*c_eval,*c_dn,*c_exec,*c_clone,*c_reset,*c_twin,*c_twin_bytes_differ,*c_garbage,*c_garbage_twin,*c_reset_unclassified,*c_reset_implied,*c_reset_stale,*c_fresh,*c_selfloop,*c_prefix[MAXD+1];
 
 /* ------------------------------------------------------------------ op execution at a fixed stack pointer */
 static char *g_sp_target;
@@ -164,6 +190,16 @@ static void diff_values(uint64_t m,const obs_t *a,const obs_t *b,char *out,size_
    for(i=0;i<K->ng&&k+80<cap;i++) if(m&(4ULL<<i)) k+=snprintf(out+k,cap-k," %s (rc %d) %d vs (rc %d) %d;",K->gname[i],a->gret[i],(int)a->gval[i],b->gret[i],(int)b->gval[i]);
 }
 
+/* MSan builds: an output byte / getter value the library left uninitialised is a failure of its own */
+static const char *hist_str(const int *suffix,int ns);
+static void check_out_init(const void *p,size_t n,const char *what){
+#if C12_MSAN
+   intptr_t off=__msan_test_shadow(p,n);
+   if (off>=0){ char sig[160]; snprintf(sig,sizeof sig,"uninitialised_output:%s:%s",K->name,what); mc_fail(sig,"%s: %s: byte %ld of %zu returned by the library is uninitialised (MemorySanitizer shadow)",hist_str(NULL,0),what,(long)off,n); __msan_unpoison(p,n); }
+#else
+   (void)p; (void)n; (void)what;
+#endif
+}
 /* ------------------------------------------------------------------ per-process exploration context */
 typedef struct { int op; obs_t o; } hstep;
 typedef struct {
@@ -173,7 +209,7 @@ typedef struct {
    unsigned char *kid[MAXD+1];      /* kid[p] : NOPS child images of the state at depth p */
    obs_t kobs[MAXD+1][MAXOPS];      /* and the original's observation of each of those transitions */
    unsigned char *tmp1,*tmp2,*tmp3,*tmp4;
-   long serial;                     /* counts prefix points: rotates phase / poison / foreign-object count */
+   long serial;                     /* derived from the state hash: selects poison / phase / number of foreign objects at this prefix point */
 } ctx_t;
 static ctx_t X;
 
@@ -198,8 +234,14 @@ static void note_obs(const opdef *op,const obs_t *o){
 static void trash_original(void){ memset(X.A.obj,0xDB,X.n); C12_POISON(X.A.obj,X.n); }
 static void revive_original(void){ C12_UNPOISON(X.A.obj,X.n); }
 
-static long first_diff_byte(const unsigned char *a,const unsigned char *b,size_t n,long *cnt){
-   long f=-1; size_t i; *cnt=0; for(i=0;i<n;i++) if(a[i]!=b[i]){ if(f<0) f=(long)i; (*cnt)++; } return f;
+static long first_diff_byte(const unsigned char *a0,const unsigned char *b0,size_t n,long *cnt){
+   long f=-1; size_t i;
+#if C12_MSAN
+   const unsigned char *a,*b; sc_need(n); memcpy(g_sc1,a0,n); memcpy(g_sc2,b0,n); __msan_unpoison(g_sc1,n); __msan_unpoison(g_sc2,n); a=g_sc1; b=g_sc2;
+#else
+   const unsigned char *a=a0,*b=b0;
+#endif
+   *cnt=0; for(i=0;i<n;i++) if(a[i]!=b[i]){ if(f<0) f=(long)i; (*cnt)++; } return f;
 }
 
 /* A failure is written out once per distinct signature per prefix point */
@@ -226,9 +268,9 @@ static void copy_fail_bytes(const char *what,const int *path,int np,const unsign
 static void check_copy(const unsigned char *s,const unsigned char *cimg0,int p,int L,const char *what,int fill_kids,int cmp_bytes){
    oblock C; int a,b2; long ser=X.serial;
    unsigned char *ka=X.tmp1,*ca=X.tmp2,*t=X.tmp3;
-   int phase = (ser&1)?8:0; int poison=POISONS[(ser/2)%3];
-   /* a fresh exact-size heap block (new address; 8-byte phase on odd prefix points, the original's block has phase 0),
-      pre-filled with a poison different from what the original's block was created with (0x5C) */
+   int phase = 8; int poison=POISONS[ser%3];
+   /* a fresh exact-size heap block at a new address and at the other 16-byte phase (the original's block is 16-byte aligned, the
+      copy sits at 8 mod 16), pre-filled with a poison different from what the original's block was created with (0x5C) */
    ob_new(&C,X.n,phase,poison);
    for(a=0;a<NOPS;a++){
       obs_t o1,c1; uint64_t m; int path[2]; path[0]=a;
@@ -245,9 +287,9 @@ static void check_copy(const unsigned char *s,const unsigned char *cimg0,int p,i
       MC_INC(c_eval); MC_INC(c_clone);
       m=obs_diff(&o1,&c1);
       if (m) copy_fail_obs(what,path,1,phase,poison,m,&o1,&c1);
-      else if (cmp_bytes && memcmp(kimg,ca,X.n)){ obs_t c1b;
+      else if (cmp_bytes && img_cmp(kimg,ca,X.n)){ obs_t c1b;
          memcpy(C.obj,cimg0,X.n); run_on(&C,NULL,a,&c1b,NULL,0x11);
-         if (memcmp(kimg,C.obj,X.n)) copy_fail_bytes(what,path,1,kimg,C.obj); else MC_INC(c_garbage); }
+         if (img_cmp(kimg,C.obj,X.n)) copy_fail_bytes(what,path,1,kimg,C.obj); else MC_INC(c_garbage); }
       if (L>=2) for(b2=0;b2<NOPS;b2++){
          obs_t o2,c2; path[1]=b2;
          mc_case(what,"%s",hist_str(path,2));
@@ -260,37 +302,54 @@ static void check_copy(const unsigned char *s,const unsigned char *cimg0,int p,i
          MC_INC(c_eval); MC_INC(c_clone);
          m=obs_diff(&o2,&c2);
          if (m) copy_fail_obs(what,path,2,phase,poison,m,&o2,&c2);
-         else if (cmp_bytes && memcmp(t,C.obj,X.n)){ obs_t cb;
+         else if (cmp_bytes && img_cmp(t,C.obj,X.n)){ obs_t cb;
             memcpy(C.obj,cimg0,X.n); run_on(&C,NULL,a,&cb,NULL,0x11); run_on(&C,NULL,b2,&cb,NULL,0x11);
-            if (memcmp(t,C.obj,X.n)) copy_fail_bytes(what,path,2,t,C.obj); else MC_INC(c_garbage); }
+            if (img_cmp(t,C.obj,X.n)) copy_fail_bytes(what,path,2,t,C.obj); else MC_INC(c_garbage); }
       }
    }
    revive_original();
    ob_free(&C);
 }
 
+/* An observation is split into its CORE (return code, output digest, final range) and the remaining GETTERS, hashed separately,
+ * so that a stale getter (a known kind of reset defect) cannot starve or mask the comparison of what is actually coded/decoded. */
+typedef struct { uint64_t core,get; } oh_t;
+static oh_t obs_h2(const obs_t *o){
+   obs_t c=*o; oh_t h; int i,cg=K->core_getter;
+   for(i=0;i<MAXG;i++) if(i!=cg){ c.gret[i]=0; c.gval[i]=0; }
+   h.core=mc_hash(&c,sizeof c,21);
+   c=*o; c.ret=0; c.outlen=0; c.outh=0; if(cg>=0){ c.gret[cg]=0; c.gval[cg]=0; }
+   h.get=mc_hash(&c,sizeof c,22);
+   return h;
+}
+
 /* ---- fresh-object memo: behaviour of (new object + accepted settings) over all suffixes, computed once per distinct image */
-typedef struct { uint64_t key; unsigned char *img; obs_t g0; uint64_t *h1; uint64_t **h2; } fent;
+typedef struct { uint64_t key; unsigned char *img; obs_t g0; oh_t *h1; oh_t **h2; } fent;
 #define FTAB 4096
 static fent g_ft[FTAB]; static int g_fn;
 static oblock g_F; static int g_F_ok;
+static void fresh_flush(void){
+   int i,a; for(i=0;i<FTAB;i++) if(g_ft[i].img){ free(g_ft[i].img); free(g_ft[i].h1); for(a=0;a<NOPS;a++) free(g_ft[i].h2[a]); free(g_ft[i].h2); }
+   memset(g_ft,0,sizeof g_ft); g_fn=0;
+}
 static fent *fresh_lookup(const unsigned char *fimg,const obs_t *g0){
-   uint64_t k=mc_hash(fimg,X.n,3)^(uint64_t)(X.b+1)*0x9e3779b97f4a7c15ULL; unsigned i=(unsigned)(k>>20)&(FTAB-1);
+   uint64_t k=img_hash(fimg,X.n,3)^(uint64_t)(X.b+1)*0x9e3779b97f4a7c15ULL; unsigned i;
+   if (g_fn>FTAB/2) fresh_flush();                /* bounded memo: recomputation only costs time */
+   i=(unsigned)(k>>20)&(FTAB-1);
    for(;;){ fent *e=&g_ft[i];
       if(e->img && e->key==k) return e;
-      if(!e->img){ if(g_fn>FTAB*3/4){ fprintf(stderr,"c12: fresh memo full\n"); exit(2); }
-         e->key=k; e->img=malloc(X.n); memcpy(e->img,fimg,X.n); e->g0=*g0; e->h1=NULL; e->h2=calloc(NOPS,sizeof(uint64_t*)); g_fn++; MC_INC(c_fresh); return e; }
+      if(!e->img){ e->key=k; e->img=malloc(X.n); memcpy(e->img,fimg,X.n); e->g0=*g0; e->h1=NULL; e->h2=calloc(NOPS,sizeof(oh_t*)); g_fn++; MC_INC(c_fresh); return e; }
       i=(i+1)&(FTAB-1);
    }
 }
 static void fresh_need1(fent *e){
-   int a; if(e->h1) return; e->h1=malloc(NOPS*sizeof(uint64_t));
-   for(a=0;a<NOPS;a++){ obs_t o; mc_case("fresh","fresh object, op %s",OPS[a].name); run_on(&g_F,e->img,a,&o,NULL,0x33); note_obs(&OPS[a],&o); e->h1[a]=obs_hash(&o); }
+   int a; if(e->h1) return; e->h1=malloc(NOPS*sizeof(oh_t));
+   for(a=0;a<NOPS;a++){ obs_t o; mc_case("fresh","fresh object, op %s",OPS[a].name); run_on(&g_F,e->img,a,&o,NULL,0x33); note_obs(&OPS[a],&o); e->h1[a]=obs_h2(&o); }
 }
 static void fresh_need2(fent *e,int a){
-   int b2; obs_t o; if(e->h2[a]) return; e->h2[a]=malloc(NOPS*sizeof(uint64_t));
+   int b2; obs_t o; if(e->h2[a]) return; e->h2[a]=malloc(NOPS*sizeof(oh_t));
    run_on(&g_F,e->img,a,&o,X.tmp4,0x33);
-   for(b2=0;b2<NOPS;b2++){ mc_case("fresh","fresh object, ops %s ; %s",OPS[a].name,OPS[b2].name); run_on(&g_F,X.tmp4,b2,&o,NULL,0x33); note_obs(&OPS[b2],&o); e->h2[a][b2]=obs_hash(&o); }
+   for(b2=0;b2<NOPS;b2++){ mc_case("fresh","fresh object, ops %s ; %s",OPS[a].name,OPS[b2].name); run_on(&g_F,X.tmp4,b2,&o,NULL,0x33); note_obs(&OPS[b2],&o); e->h2[a][b2]=obs_h2(&o); }
 }
 
 /* build "a newly created object carrying the same settings": init + the setting ops of the history that were accepted */
@@ -307,24 +366,26 @@ static void build_fresh(unsigned char *fimg,obs_t *g0){
    ob_free(&Fb);
 }
 
-static void report_reset(const unsigned char *rimg,fent *fe,const int *path,int np,uint64_t mask_hint){
-   /* verbose recomputation of both sides for the message + optional white-box naming of the cause */
+/* verbose recomputation of both sides for the message + optional white-box naming of the cause.
+ * stale = getter components that already differ right after the reset (reported on their own). */
+static void report_reset(const unsigned char *rimg,fent *fe,const int *path,int np,uint64_t stale){
    obs_t ro[3],fo[3]; uint64_t m=0; int i; char dn[400],dv[900],sig[500]; const char *cause=NULL; unsigned char *ri=X.tmp3,*fi=X.tmp4; int firstbad=-1; uint64_t mfirst=0;
-   (void)mask_hint;
    memcpy(ri,rimg,X.n); memcpy(fi,fe->img,X.n);
    for(i=0;i<np;i++){ uint64_t mi; run_on(&X.A,ri,path[i],&ro[i],ri,0x11); run_on(&g_F,fi,path[i],&fo[i],fi,0x33); mi=obs_diff(&ro[i],&fo[i]); if(mi&&firstbad<0){ firstbad=i; mfirst=mi; } m|=mi; }
    if (np==0){ /* getter vector right after the reset */ obs_t r0; memset(&r0,0,sizeof r0); memcpy(X.A.obj,rimg,X.n); K->getters(X.A.obj,X.b,&r0); m=obs_diff(&r0,&fe->g0)&~3ULL; ro[0]=r0; fo[0]=fe->g0; firstbad=0; mfirst=m; }
-   if (!m) return;  /* did not reproduce verbosely: leave it to the hash comparison having been wrong (cannot happen) */
+   if (!m) return;
    diff_names(m,dn,sizeof dn); diff_values(mfirst,&ro[firstbad],&fo[firstbad],dv,sizeof dv);
-   if (K->classify && np>0) cause=K->classify(X.b,rimg,fe->img,path,np,fo);
+   if (K->classify && np>0 && (m&~stale)) cause=K->classify(X.b,rimg,fe->img,path,np,fo,stale);
    snprintf(sig,sizeof sig,"reset_neq_fresh:%s:%s",K->name,cause?cause:dn);
    if (rep_new(sig)) mc_fail(sig,"%s: object after OPUS_RESET_STATE vs newly initialised object with the same accepted settings: components differing over the suffix {%s}; first difference at suffix op %d (%s):%s (reset vs fresh)%s%s",
       hist_str(path,np),dn,firstbad+1,np?OPS[path[firstbad]].name:"getter vector right after reset",dv,cause?" ; cause named by counterfactual repair of the reset image: ":"",cause?cause:"");
 }
 
-/* ---- (ii) reset check */
+/* ---- (ii) reset check.  Analysis budget per prefix point: 6 core failures + 3 getter-only failures are re-run verbosely, named
+ * and written out; further ones are only counted (reset_failures_not_analysed).  A core failure at the first suffix op is the
+ * minimal failing suffix, so its extensions are not run; a getter-only difference does not stop the second level. */
 static void check_reset(const unsigned char *s,int p,int L){
-   obs_t r0,g0; unsigned char *rimg=X.tmp1,*ra=X.tmp2,*fimg=X.tmp3; fent *fe; int a,b2,analysed=0; uint64_t m; int path[2];
+   obs_t r0,g0; unsigned char *rimg=X.tmp1,*ra=X.tmp2,*fimg=X.tmp3; fent *fe; int a,b2,bud_core=6,bud_get=3; uint64_t stale; int path[2];
    (void)p;
    mc_case("reset","%s",hist_str(NULL,0));
    run_on(&X.A,s,RESET_OP,&r0,rimg,0x11);
@@ -332,25 +393,30 @@ static void check_reset(const unsigned char *s,int p,int L){
    fe=fresh_lookup(fimg,&g0);
    MC_INC(c_eval); MC_INC(c_reset);
    if (r0.ret!=OPUS_OK){ char sig[120]; snprintf(sig,sizeof sig,"reset_neq_fresh:%s:reset_returns_error",K->name); mc_fail(sig,"%s: OPUS_RESET_STATE returned %d",hist_str(NULL,0),r0.ret); return; }
-   m=obs_diff(&r0,&g0)&~3ULL;
-   if (m){ report_reset(rimg,fe,path,0,m); analysed++; }
+   stale=obs_diff(&r0,&g0)&~3ULL;
+   if (stale){ report_reset(rimg,fe,path,0,0); MC_INC(c_reset_stale); }
    fresh_need1(fe);
    for(a=0;a<NOPS;a++){
-      obs_t o1; path[0]=a;
+      obs_t o1; oh_t h; int g1=0; path[0]=a;
       mc_case("reset","%s",hist_str(path,1));
       run_on(&X.A,rimg,a,&o1,ra,0x11);
       MC_INC(c_eval); MC_INC(c_reset);
-      if (obs_hash(&o1)!=fe->h1[a]){
-         /* first failing step found: longer suffixes through it add nothing (the minimal failing suffix is this one) */
-         if (analysed<6){ report_reset(rimg,fe,path,1,0); analysed++; } else MC_INC(c_reset_unclassified);
+      h=obs_h2(&o1);
+      if (h.core!=fe->h1[a].core){
+         if (bud_core>0){ report_reset(rimg,fe,path,1,stale); bud_core--; } else MC_INC(c_reset_unclassified);
          continue;
       }
+      if (h.get!=fe->h1[a].get){ g1=1;
+         if (stale) MC_INC(c_reset_implied); else if (bud_get>0){ report_reset(rimg,fe,path,1,stale); bud_get--; } else MC_INC(c_reset_unclassified); }
       if (L>=2){ fresh_need2(fe,a);
          for(b2=0;b2<NOPS;b2++){ obs_t o2; path[1]=b2;
             mc_case("reset","%s",hist_str(path,2));
             run_on(&X.A,ra,b2,&o2,NULL,0x11);
             MC_INC(c_eval); MC_INC(c_reset);
-            if (obs_hash(&o2)!=fe->h2[a][b2]){ if (analysed<6){ report_reset(rimg,fe,path,2,0); analysed++; } else MC_INC(c_reset_unclassified); }
+            h=obs_h2(&o2);
+            if (h.core!=fe->h2[a][b2].core){ if (bud_core>0){ report_reset(rimg,fe,path,2,stale); bud_core--; } else MC_INC(c_reset_unclassified); }
+            else if (h.get!=fe->h2[a][b2].get){
+               if (stale||g1) MC_INC(c_reset_implied); else if (bud_get>0){ report_reset(rimg,fe,path,2,stale); bud_get--; } else MC_INC(c_reset_unclassified); }
          }
       }
    }
@@ -397,10 +463,10 @@ static void check_twin(const unsigned char *s,int p,int L){
    mc_case("twin","%s",hist_str(NULL,0));
    run_twin(0x77,1,timg);
    MC_INC(c_eval); MC_INC(c_twin);
-   if (memcmp(timg,s,X.n)){
+   if (img_cmp(timg,s,X.n)){
       /* different bytes are not a violation in themselves (the statement is about behaviour).  Same stack garbage as the original: */
       run_twin(0x11,0,timg);
-      if (!memcmp(timg,s,X.n)) MC_INC(c_garbage_twin);      /* only dead stack garbage differed: the twin is a clone, covered by (i) */
+      if (!img_cmp(timg,s,X.n)) MC_INC(c_garbage_twin);      /* only dead stack garbage differed: the twin is a clone, covered by (i) */
       else { MC_INC(c_twin_bytes_differ); check_copy(s,timg,p,L,"twin",0,0); }   /* run every suffix on the twin as well */
    }
    free(timg);
@@ -409,7 +475,7 @@ static void check_twin(const unsigned char *s,int p,int L){
 /* ---- DFS over prefix points */
 static int g_samples_left=3;
 static void visit(const unsigned char *s,int p,int recurse){
-   uint64_t h=mc_hash(s,X.n,1)^(uint64_t)(X.b+1)*0xD6E8FEB86659FD93ULL; int L,a;
+   uint64_t h=img_hash(s,X.n,1)^(uint64_t)(X.b+1)*0xD6E8FEB86659FD93ULL; int L,a;
    if (!mc_set_add(g_visited,mc_mix(h,(uint64_t)p+1))) return;
    if (mc_set_add(g_distinct,h)) MC_INC(c_states);
    L = D-p; if (L>2) L=2; if (L<=0) return;
@@ -420,12 +486,12 @@ static void visit(const unsigned char *s,int p,int recurse){
    check_reset(s,p,L);
    check_twin(s,p,L);
    if (g_samples_left>0 && p>=2 && mc_worker_id()==0){ g_samples_left--;
-      mc_sample("%s prefix point depth %d (state image %zu bytes, hash %016llx): clone/original, reset/fresh and twin compared over all %d suffixes of length <=%d — all equal",
-         hist_str(NULL,0),p,X.n,(unsigned long long)h,L==2?NOPS+NOPS*NOPS:NOPS,L); }
+      mc_sample("%s prefix point depth %d (state image %zu bytes, hash %016llx): clone/original (obs+state bytes), reset/fresh and twin compared over all %d suffixes of length <=%d: %s",
+         hist_str(NULL,0),p,X.n,(unsigned long long)h,L==2?NOPS+NOPS*NOPS:NOPS,L,g_nrep?"FAILURE(S) reported":"all equal"); }
    if (!recurse || p+1>D-1) return;
    for(a=0;a<NOPS;a++){
       unsigned char *c=X.kid[p]+(size_t)a*X.n;
-      if (!memcmp(c,s,X.n)){ MC_INC(c_selfloop); continue; }   /* idempotent setting: same state, shorter history covers it */
+      if (!img_cmp(c,s,X.n)){ MC_INC(c_selfloop); continue; }   /* idempotent setting: same state, shorter history covers it */
       /* the observation of this step is needed by the twin check of the deeper prefix points */
       X.hist[X.hl].op=a; X.hist[X.hl].o=X.kobs[p][a]; X.hl++;
       visit(c,p+1,1);
@@ -434,8 +500,9 @@ static void visit(const unsigned char *s,int p,int recurse){
 }
 
 static void engine_item(long it,void *ctx){
-   int nb=g_nbsel, b=g_bsel[it%nb]; long r=it/nb; int a1=(int)(r%NOPS), a2=(int)(r/NOPS); int p; obs_t o; unsigned char *root,*s1,*s2;
+   long per=(long)NOPS*NOPS; int b=g_bsel[it/per]; long r=it%per; int a1=(int)(r/NOPS), a2=(int)(r%NOPS); int p; obs_t o; unsigned char *root,*s1,*s2; static int last_b=-1;
    (void)ctx;
+   if (b!=last_b){ if(last_b>=0) fresh_flush(); last_b=b; }   /* items of one base are contiguous: the fresh-object memo is per base */
    memset(&X,0,sizeof X); X.b=b; X.n=K->size(b);
    ob_new(&X.A,X.n,0,0x5C);
    for(p=0;p<=D;p++) X.kid[p]=malloc((size_t)NOPS*X.n);
@@ -447,12 +514,12 @@ static void engine_item(long it,void *ctx){
    memcpy(root,X.A.obj,X.n);
    if (a1==0 && a2==0) visit(root,0,0);
    run_on(&X.A,root,a1,&o,s1,0x11);
-   if (!memcmp(s1,root,X.n)) goto done;
+   if (!img_cmp(s1,root,X.n)) goto done;
    X.hist[0].op=a1; X.hist[0].o=o; X.hl=1;
    if (a2==0) visit(s1,1,0);
    if (D>=3){
       run_on(&X.A,s1,a2,&o,s2,0x11);
-      if (!memcmp(s2,s1,X.n)) goto done;
+      if (!img_cmp(s2,s1,X.n)) goto done;
       X.hist[1].op=a2; X.hist[1].o=o; X.hl=2;
       visit(s2,2,1);
    }
@@ -462,6 +529,13 @@ done:
    ob_free(&X.A);
 }
 
+/* An item can emit failures with several signatures.  ./check verifies each reported signature by re-running the item with --only
+ * in the same output directory, and the runtime names replay files <prop>-<part>-<item>-<n> with n restarting at 0 in every
+ * process, so such a re-run would overwrite the replay files written by the exploring run with files of other signatures.
+ * Keep the files of --only runs in a sub-directory. */
+static void engine_replay_outdir(void){
+   if (MC.only_item>=0){ static char d[600]; snprintf(d,sizeof d,"%s/only",MC.outdir); mkdir(d,0777); MC.outdir=d; }
+}
 static int engine_main(void){
    int i; long nitems; char nm[32];
    { char *here=(char*)__builtin_frame_address(0); g_sp_target=(char*)(((uintptr_t)here-(1<<20))&~(uintptr_t)63); }
@@ -470,7 +544,7 @@ static int engine_main(void){
    if (RESET_OP<0||NOPS>MAXOPS||K->ng>MAXG){ fprintf(stderr,"c12: bad alphabet\n"); return 2; }
    c_states=mc_counter("states"); c_trans=mc_counter("transitions"); c_eval=mc_counter("evaluations"); c_dn=mc_counter("distinct_nontrivial");
    c_exec=mc_counter("op_executions"); c_clone=mc_counter("clone_comparisons"); c_reset=mc_counter("reset_comparisons"); c_twin=mc_counter("twin_comparisons");
-   c_twin_bytes_differ=mc_counter("twins_with_different_bytes"); c_garbage=mc_counter("dead_garbage_bytes_in_state"); c_garbage_twin=mc_counter("twins_differing_only_by_dead_garbage"); c_reset_unclassified=mc_counter("reset_failures_beyond_first_6_per_prefix_point"); c_fresh=mc_counter("fresh_settings_objects"); c_selfloop=mc_counter("idempotent_edges_skipped");
+   c_twin_bytes_differ=mc_counter("twins_with_different_bytes"); c_garbage=mc_counter("dead_garbage_bytes_in_state"); c_garbage_twin=mc_counter("twins_differing_only_by_dead_garbage"); c_reset_unclassified=mc_counter("reset_failures_not_analysed"); c_reset_implied=mc_counter("reset_getter_diffs_implied_by_stale_getter"); c_reset_stale=mc_counter("prefix_points_with_stale_getter_after_reset"); c_fresh=mc_counter("fresh_settings_objects"); c_selfloop=mc_counter("idempotent_edges_skipped");
    for(i=0;i<=D&&i<=MAXD;i++){ snprintf(nm,sizeof nm,"prefix_points_depth%d",i); c_prefix[i]=mc_counter(nm); }
    g_visited=mc_set_new(24); g_distinct=mc_set_new(24); g_obsset=mc_set_new(24);
    mc_info("kind=%s depth_bound=%d alphabet=%d ops bases=%d asan=%d msan=%d",K->name,D,NOPS,g_nbsel,C12_ASAN,C12_MSAN);
